@@ -174,6 +174,13 @@ static int fam_enc(Choice& c, Report& rep) {
     if (c.chance(40)) ENC_CTL(OPUS_SET_DTX(1));
   }
   ENC_CTL(OPUS_SET_COMPLEXITY(c.chance(128) ? 10 - c.irange(0, 10) : 3));
+  // class "self-delimited length boundary" (switch derived from the case hash so that the choice layout and the committed replays keep their
+  // meaning): every stream fills its share of the buffer (OPUS_BITRATE_MAX) and the budget puts a non-final stream on the 251..255-byte edge
+  // between the one- and two-byte length code; the encoder must still emit a well-formed packet (seeded defect C10-8: length-byte reserve
+  // '>254' instead of '>253' made opus_multistream_encode fail at max_data_bytes 255/257)
+  const uint64_t case_hash = fnv1a(c.d, c.n);
+  const bool len_boundary = E.streams >= 2 && !fecb && (case_hash % 6) == 2;
+  if (len_boundary) { ENC_CTL(OPUS_SET_BITRATE(OPUS_BITRATE_MAX)); rep.label("class:length-boundary"); }
   // decoder layout: the encoder's, or an own mapping over the same streams
   msu::Layout D = E;
   if (c.chance(110)) {
@@ -206,6 +213,7 @@ static int fam_enc(Choice& c, Report& rep) {
     s.aux = c.irange(0, 255);
     int k = c.irange(0, 9);
     s.maxb = k < 7 ? 1500 * E.streams + 2500 : k == 7 ? c.irange(2 * E.streams, 60 * E.streams + 20) : c.irange(2 * E.streams, 400 * E.streams);
+    if (len_boundary) { uint64_t h = mix(case_hash, (uint64_t)(&s - &steps[0])); s.maxb = 248 + (int)(h % 17) + 254 * (int)((h >> 8) % (uint64_t)(E.streams - 1)); }
     total += cu::frame_samples(Fs, s.d);
   }
   std::vector<float> x; msu::gen_signal(fam, seed, Fs, E.channels, total, amp, x);
@@ -237,6 +245,9 @@ static int fam_enc(Choice& c, Report& rep) {
       VP_REQUIRE(len < 0, "c10:encoder-returned-zero", "step %d: encoder returned 0", si);
       // with 1500 bytes per stream (+2500) every supported layout must be able to emit a packet
       VP_REQUIRE(s.maxb < 1500 * E.streams, "c10:encoder-error-ample-budget", "step %d: encoder returned %d for %d samples with a %d-byte budget (%d streams)", si, len, n, s.maxb, E.streams);
+      // the documented smallest multistream packet is 2 bytes per stream (3 at 100 ms) minus one; any larger buffer must yield a packet
+      // (same rule as C02: refusals are only legitimate below 4 bytes per stream + 2)
+      VP_REQUIRE(len == OPUS_BUFFER_TOO_SMALL && s.maxb < 4 * E.streams + 2, "c10:encoder-error", "step %d: encoder returned %d for %d samples with a %d-byte budget (%d streams): no packet emitted for a supported layout", si, len, n, s.maxb, E.streams);
       rep.label("encoder-error-small-budget");
       break;
     }
